@@ -1,18 +1,47 @@
-import Sucds.Proofs.CompactVectorHistory
-/-! # C09 — CompactVector is a faithful fixed-width integer list under any history (partial)
+import Sucds.Proofs.CompactVectorFull
+/-! # C09 — CompactVector is a faithful fixed-width integer list under any history
 
-Proved: `new` accepts exactly widths `1..=64`; every history of `push_int`/`set_int`/`extend` never panics
-and refines the list semantics (misfits and out-of-range positions rejected without effect, `extend`
-keeps the prefix before the first misfit), after which `get_int i` is the i-th element for *every* `i`.
-Missing for the full statement: `from_int`, `from_slice`, iteration, canonical equality. -/
+For every constructor (`new w`, `from_int val len w`, `from_slice vals`; `with_capacity` is `new`, capacity is
+not modelled), every history of `push_int` / `set_int` / `extend` with operands in `usize`, and every build
+configuration: the constructor answers `Err` exactly for widths outside `1..=64` / values that do not fit
+(`specCtor`), nothing panics, and the vector is *faithful* to the list semantics at every point of the
+history — `len`, declared `width` (`from_slice`: bit length of the maximum), `get_int i` = i-th element for
+**every** `i` (no bound: positions whose bit offset would overflow answer `None`), iteration with exact size
+hints, and canonical equality (any vector with the same width and contents is the same value). Every single
+operation's `Ok`/`Err` verdict equals the list semantics, a rejected `push_int`/`set_int` returns the vector
+unchanged, a failed `extend` keeps the items before the first misfit. -/
 namespace Sucds.C09
 open Sucds Sucds.CV
 
-theorem histories : ∀ (ops : List Op) (v : CV) (xs : List Nat), Rep v xs → (∀ op ∈ ops, op.Small) →
-    ∃ v', run v ops = .ok v' ∧ v'.width = v.width ∧
-      Rep v' (ops.foldl (fun l op => (specApply v.width l op).1) xs) ∧
-      ∀ i, v'.getInt i = .ok (ops.foldl (fun l op => (specApply v.width l op).1) xs)[i]? := run_spec
+def Statement : Prop :=
+  ∀ (c : Cfg) (k : Ctor), k.Small → ∀ (ops : List Op), (∀ op ∈ ops, op.Small) →
+    match specCtor k with
+    | none => construct c k = .ok none
+    | some (w, xs0) =>
+      ∃ v0 v', construct c k = .ok (some v0) ∧ Faithful v0 w xs0 ∧
+        run v0 ops = .ok v' ∧ Faithful v' w (specRun w xs0 ops) ∧
+        ∀ pre op post, ops = pre ++ op :: post →
+          ∃ v1 v2, run v0 pre = .ok v1 ∧ Faithful v1 w (specRun w xs0 pre) ∧
+            v1.apply op = .ok (v2, (specApply w (specRun w xs0 pre) op).2) ∧
+            Faithful v2 w (specApply w (specRun w xs0 pre) op).1 ∧
+            run v2 post = .ok v' ∧
+            ((specApply w (specRun w xs0 pre) op).2 = false → (∀ o, op ≠ .extend o) → v2 = v1)
 
-theorem new_accepts (w : Nat) (h1 : 1 ≤ w) (h2 : w ≤ 64) : ∃ v, new w = some v ∧ Rep v [] ∧ v.width = w := new_rep w h1 h2
-theorem new_rejects (w : Nat) (h : w < 1 ∨ 64 < w) : new w = none := new_rej w h
+theorem holds : Statement := fun c k hk ops hs => full_spec c k hk ops hs
+
+/-- vectors with the same width and contents are equal, whatever histories and configurations produced them -/
+theorem canonical (c c' : Cfg) (k k' : Ctor) (hk : k.Small) (hk' : k'.Small) (ops ops' : List Op)
+    (hs : ∀ op ∈ ops, op.Small) (hs' : ∀ op ∈ ops', op.Small)
+    (w : Nat) (xs0 xs0' : List Nat) (h : specCtor k = some (w, xs0)) (h' : specCtor k' = some (w, xs0'))
+    (hsame : specRun w xs0 ops = specRun w xs0' ops') :
+    ∃ v0 v0' v, construct c k = .ok (some v0) ∧ construct c' k' = .ok (some v0') ∧
+      run v0 ops = .ok v ∧ run v0' ops' = .ok v :=
+  full_eq c c' k k' hk hk' ops ops' hs hs' w xs0 xs0' h h' hsame
+
+/-- what `Faithful` gives for reads: every index, including the ones whose bit offset would overflow -/
+theorem get_int_everywhere (v : CV) (w : Nat) (xs : List Nat) (h : Faithful v w xs) (i : Nat) :
+    v.getInt i = .ok xs[i]? := h.get i
+
+-- non-vacuity: a history with a rejected operation (width 3: 9 does not fit), checked by evaluation
+example : specRun 3 [] [.pushInt 5, .pushInt 9, .setInt 0 7] = [7] := by decide
 end Sucds.C09
